@@ -87,6 +87,36 @@ theorem LockLe_stepDoFlush {s s' : State}  (h : stepDoFlush s  = some s') : Lock
   leaves h
   all_goals (subst h; lockle)
 
+theorem LockLe_stepWTake {s s' : State}  (h : stepWTake s  = some s') : LockLe s s' := by
+  unfold stepWTake at h
+  leaves h
+  all_goals (subst h; lockle)
+
+theorem LockLe_stepWDo {s s' : State}  (h : stepWDo s  = some s') : LockLe s s' := by
+  unfold stepWDo at h
+  leaves h
+  all_goals (subst h; lockle)
+
+theorem LockLe_stepWBlock {s s' : State}  (h : stepWBlock s  = some s') : LockLe s s' := by
+  unfold stepWBlock at h
+  leaves h
+  all_goals (subst h; lockle)
+
+theorem LockLe_stepFlushStep {s s' : State} {k : Key} (h : stepFlushStep s k = some s') : LockLe s s' := by
+  unfold stepFlushStep at h
+  leaves h
+  all_goals (subst h; lockle)
+
+theorem LockLe_stepCancelWrite {s s' : State} {k : Key} (h : stepCancelWrite s k = some s') : LockLe s s' := by
+  unfold stepCancelWrite StreamSt.endWrite at h
+  leaves h
+  all_goals (subst h; lockle)
+
+theorem LockLe_stepCancelFlush {s s' : State} {k : Key} (h : stepCancelFlush s k = some s') : LockLe s s' := by
+  unfold stepCancelFlush at h
+  leaves h
+  all_goals (subst h; lockle)
+
 theorem LockLe_stepAppOpen {s s' : State} {slot : Nat} {conn : Bool} {cap : Nat} (h : stepAppOpen s slot conn cap = some s') : LockLe s s' := by
   unfold stepAppOpen at h
   leaves h
@@ -98,7 +128,7 @@ theorem LockLe_stepReadStep {s s' : State} {k : Key} (h : stepReadStep s k = som
   all_goals (subst h; lockle)
 
 theorem LockLe_stepWriteStep {s s' : State} {k : Key} (h : stepWriteStep s k = some s') : LockLe s s' := by
-  unfold stepWriteStep at h
+  unfold stepWriteStep StreamSt.endWrite at h
   leaves h
   all_goals (subst h; lockle)
 
@@ -226,6 +256,13 @@ theorem LInvA_step {s s' : State} {e : Event} (hi : LInv s) (h : step? s e = som
   case writeStep k => exact LInvA_of_le (LockLe_stepWriteStep h) hi.toA
   case appFlush a => exact LInvA_of_le (LockLe_stepAppFlush h) hi.toA
   case appDrop a b c => exact LInvA_stepAppDrop hi h
+  case wtake => exact LInvA_of_le (LockLe_stepWTake h) hi.toA
+  case wdo => exact LInvA_of_le (LockLe_stepWDo h) hi.toA
+  case wblock => exact LInvA_of_le (LockLe_stepWBlock h) hi.toA
+  case txWindow l => cases h; exact LInvA_of_le (s := s) (fun k => lkLe_refl _) hi.toA
+  case flushStep k => exact LInvA_of_le (LockLe_stepFlushStep h) hi.toA
+  case cancelWrite k => exact LInvA_of_le (LockLe_stepCancelWrite h) hi.toA
+  case cancelFlush k => exact LInvA_of_le (LockLe_stepCancelFlush h) hi.toA
 
 
 /-! ### the queues of pushed streams -/
@@ -307,6 +344,36 @@ theorem QInv_stepJoinedC {s s' : State} {k : Key} (hi : QInv s) (h : stepJoinedC
   leaves h
   all_goals (subst h; refine QInv_of_mpOk (s := s) rfl rfl rfl ?_ hi; mpok)
 
+theorem QInv_stepWTake {s s' : State}  (hi : QInv s) (h : stepWTake s  = some s') : QInv s' := by
+  unfold stepWTake at h
+  leaves h
+  all_goals (subst h; refine QInv_of_mpOk (s := s) rfl rfl rfl ?_ hi; mpok)
+
+theorem QInv_stepWDo {s s' : State}  (hi : QInv s) (h : stepWDo s  = some s') : QInv s' := by
+  unfold stepWDo at h
+  leaves h
+  all_goals (subst h; refine QInv_of_mpOk (s := s) rfl rfl rfl ?_ hi; mpok)
+
+theorem QInv_stepWBlock {s s' : State}  (hi : QInv s) (h : stepWBlock s  = some s') : QInv s' := by
+  unfold stepWBlock at h
+  leaves h
+  all_goals (subst h; refine QInv_of_mpOk (s := s) rfl rfl rfl ?_ hi; mpok)
+
+theorem QInv_stepFlushStep {s s' : State} {k : Key} (hi : QInv s) (h : stepFlushStep s k = some s') : QInv s' := by
+  unfold stepFlushStep at h
+  leaves h
+  all_goals (subst h; refine QInv_of_mpOk (s := s) rfl rfl rfl ?_ hi; mpok)
+
+theorem QInv_stepCancelWrite {s s' : State} {k : Key} (hi : QInv s) (h : stepCancelWrite s k = some s') : QInv s' := by
+  unfold stepCancelWrite StreamSt.endWrite at h
+  leaves h
+  all_goals (subst h; refine QInv_of_mpOk (s := s) rfl rfl rfl ?_ hi; mpok)
+
+theorem QInv_stepCancelFlush {s s' : State} {k : Key} (hi : QInv s) (h : stepCancelFlush s k = some s') : QInv s' := by
+  unfold stepCancelFlush at h
+  leaves h
+  all_goals (subst h; refine QInv_of_mpOk (s := s) rfl rfl rfl ?_ hi; mpok)
+
 theorem QInv_stepDoFlush {s s' : State}  (hi : QInv s) (h : stepDoFlush s  = some s') : QInv s' := by
   unfold stepDoFlush at h
   leaves h
@@ -334,7 +401,7 @@ theorem QInv_stepAppWrite {s s' : State} {slot : Nat} {bytes : List Nat} (hi : Q
   all_goals (subst h; refine QInv_of_mpOk (s := s) rfl rfl rfl ?_ hi; mpok)
 
 theorem QInv_stepWriteStep {s s' : State} {k : Key} (hi : QInv s) (h : stepWriteStep s k = some s') : QInv s' := by
-  unfold stepWriteStep at h
+  unfold stepWriteStep StreamSt.endWrite at h
   leaves h
   all_goals (subst h; refine QInv_of_mpOk (s := s) rfl rfl rfl ?_ hi; mpok)
 
@@ -448,6 +515,13 @@ theorem QInv_step {s s' : State} {e : Event} (hi : QInv s) (h : step? s e = some
   case writeStep k => exact QInv_stepWriteStep hi h
   case appFlush a => exact QInv_stepAppFlush hi h
   case appDrop a b c => exact QInv_stepAppDrop hi h
+  case wtake => exact QInv_stepWTake hi h
+  case wdo => exact QInv_stepWDo hi h
+  case wblock => exact QInv_stepWBlock hi h
+  case txWindow l => cases h; exact QInv_of_mpOk (s := s) rfl rfl rfl (fun k => mpOk_refl _) hi
+  case flushStep k => exact QInv_stepFlushStep hi h
+  case cancelWrite k => exact QInv_stepCancelWrite hi h
+  case cancelFlush k => exact QInv_stepCancelFlush hi h
 
 
 
